@@ -5,14 +5,14 @@ func init() {
 		Property: "C01", Level: "exploration", OwnsPanics: false,
 		Rule:   "core scenario: one res.Service with generated pattern set (literal, $tag, >, mounted to depth 2; group absent/literal/${tag}/Parallel), 1-32 workers, in-channel 1-1024, a peer sending requests, 0-2 producer goroutines calling With/WithResource/WithGroup (group strings chosen to collide with resource-name groups and tag expansions), query events with query requests and expiry, optional Shutdown/Serve cycles.",
 		Oracle: "every callback does enter(group), yields, exit(group) with the reference group id computed by the harness's own matcher; occupancy of every non-parallel group must be <= 1 at every enter.",
-		Scen:   []ScenBudget{{"core", 6000, 400000}},
+		Scen:   []ScenBudget{{"core", 6000, 400000}, {"queryevent", 2000, 120000}},
 		Probes: []string{"enqueue onto the registered work item of a busy group", "parallel handlers overlapped", "fault.slow-consumer-drop"},
 	})
 	addCheck(&CheckSpec{
 		Property: "C02", Level: "exploration",
-		Rule:   "same runs as C01 (core scenario).",
+		Rule:   "same runs as C01 (core scenario, and the queryevent scenario for query-request callbacks).",
 		Oracle: "per group, callback start order must be a linear extension of submission precedence (requests by delivery order; With* calls by return-before-invoke; request-before-With when the listener finished enqueueing before the call); every submission starts at most once, and exactly once at quiescence before a clean Shutdown; With returns an error and runs nothing iff the reference matcher finds no handler.",
-		Scen:   []ScenBudget{{"core", 6000, 400000}},
+		Scen:   []ScenBudget{{"core", 6000, 400000}, {"queryevent", 2000, 120000}},
 	})
 	addCheck(&CheckSpec{
 		Property: "C03", Level: "exploration", OwnsPanics: true,
